@@ -739,7 +739,6 @@ func (p *Prog) globalStores(g *ssa.Global) []ssa.Value {
 	return p.globStores[g]
 }
 
-
 // subResult evaluates the rules of another property once per run (rules imported by several properties, and by
 // imports of imports, would otherwise be recomputed many times).
 func (p *Prog) subResult(id, tier string) *Result {
